@@ -35,6 +35,9 @@ def oracle_cases(tier, rng):
         for J in (1, 2, 3):
             for hw in (sizes if tier == 'thorough' else [sizes[i] for i in rng.choice(len(sizes), 2, replace=False)]):
                 yield dict(kind='ref', biort=b, qshift=q, J=J, H=hw[0], W=hw[1], seed=int(rng.integers(1 << 30)))
+    for (b, q) in (dtfam.PAIRS[0], dtfam.PAIRS[5]):
+        for (nb, C) in ((1, 70), (9, 2)):
+            yield dict(kind='ref', biort=b, qshift=q, J=2, H=8, W=12, nb=nb, C=C, seed=int(rng.integers(1 << 30)))
     # full-shape levels that are exactly zero (a mask, a pruned scale): still the reference inverse of that pyramid, same extent
     for (b, q) in [('near_sym_a', 'qshift_a'), ('near_sym_b', 'qshift_b'), ('legall', 'qshift_06')]:
         for J in (2, 3):
@@ -52,12 +55,12 @@ def oracle_cases(tier, rng):
 
 
 def strat_key(cfg):
-    return '%s/%s/%s/J%d/%s' % (cfg['kind'], cfg['biort'], cfg['qshift'], cfg['J'], cfg.get('absent') or cfg.get('zero'))
+    return '%s/%s/%s/J%d/%s' % (cfg['kind'], cfg['biort'], cfg['qshift'], cfg['J'], cfg.get('absent') or cfg.get('zero') or ('many%dx%d' % (cfg['nb'], cfg['C']) if cfg.get('C') else None))
 
 
 def pyramid(cfg, r):
     from pytorch_wavelets import DTCWTForward
-    yl, yh = DTCWTForward(biort=cfg['biort'], qshift=cfg['qshift'], J=cfg['J'])(torch.zeros(1, 2, cfg['H'], cfg['W'], dtype=torch.float64))
+    yl, yh = DTCWTForward(biort=cfg['biort'], qshift=cfg['qshift'], J=cfg['J'])(torch.zeros(cfg.get('nb', 1), cfg.get('C', 2), cfg['H'], cfg['W'], dtype=torch.float64))
     return r.standard_normal(tuple(yl.shape)), [r.standard_normal(tuple(h.shape)) for h in yh]
 
 
